@@ -61,7 +61,8 @@ def run(ctx):
     for si in esites:
         check_site_args(rep, facts, si, False)
     # R06.2 / R06.3 allocating forms, R06.4 single-shot
-    n = c14.run_alloc_forms(rep, facts, alloc)
+    # integrity does not care whether valid inputs are *accepted* (that is C01/C05/C14): strict_accept off
+    n = c14.run_alloc_forms(rep, facts, alloc, strict_accept=False)
     ss = [(a, s) for a, s in c14.single_shot_bodies(facts) if 'open' in a.body.key.rsplit('::', 1)[-1]]
     rep.floor('R06.4', 'single-shot opening functions', len(ss), 2 if alloc else 1)
     for a, setups in ss:
